@@ -52,8 +52,8 @@ class JsonRPC:
             raise exceptions.UnsupportedMediaType()
 
         try:
-            request_text = request.get_data(as_text=True)
-        except UnicodeDecodeError as e:
+            request_text = request.get_data().decode(request.mimetype_params.get('charset', 'utf-8'))
+        except (UnicodeDecodeError, LookupError) as e:
             raise exceptions.BadRequest() from e
 
         response = self._dispatcher.dispatch(request_text, context=request)
